@@ -1043,7 +1043,15 @@ func (g *G) genCallCommon(c *cur, in *am.Inst) bool {
 	if g.chance("callfnattr", 1, 5) {
 		in.FnAttrs = []string{g.pick("cfa", []string{"nounwind", "readnone", "noreturn", "cold", "nobuiltin", "\"k\"=\"v\"", "\"s\""})}
 	}
-	if g.chance("bundle", 1, 8) && !g.off("operand-bundle") {
+	if g.lastBundleBlk == c.blk && len(g.lastBundles) > 0 && !g.off("operand-bundle") && g.chance("samebundle", 1, 2) {
+		// the same bundles, spelled identically, as the previous call of this block (values that were
+		// available there are available here); one time in three a bundle is listed twice
+		for _, b := range g.lastBundles {
+			in.Bundles = append(in.Bundles, &am.Bundle{Tag: b.Tag, Args: append([]*am.Value(nil), b.Args...)})
+		}
+		g.feat("call/bundle")
+		g.feat("call/bundle-identical-to-another-call")
+	} else if g.chance("bundle", 1, 8) && !g.off("operand-bundle") {
 		// one to three bundles with distinct tags (LLVM rejects a repeated tag for the known bundle kinds only)
 		tags := []string{"foo", "my bundle", "x.y"}
 		for nb := g.rng("nbundles", 1, 3); nb > 0; nb-- {
@@ -1057,6 +1065,7 @@ func (g *G) genCallCommon(c *cur, in *am.Inst) bool {
 		if len(in.Bundles) > 1 {
 			g.feat("call/several-bundles")
 		}
+		g.lastBundles, g.lastBundleBlk = in.Bundles, c.blk
 	}
 	return true
 }
